@@ -86,7 +86,7 @@ func buildCases(r *vrun.Run, scratch string) []Case {
 			// ... and with members appended while the producers run
 			kinds := append(append([]string{}, memberKinds...), "logr", "logr")
 			n0 := 1 + rng.IntN(2)
-			n1 := 1 + rng.IntN(2)
+			n1 := 1 + rng.IntN(5)
 			var m0, m1 []string
 			for i := 0; i < n0; i++ {
 				m0 = append(m0, memberKinds[rng.IntN(len(memberKinds))])
